@@ -25,7 +25,7 @@ def k2 : Key := (11, 21, 32)
 
 /-- DROP + re-CREATE: the comment of the dropped table is shown for the new one -/
 def staleHistory : List Op :=
-  [.createTable k1 [⟨41, .text 10⟩] (some 3) false, .dropTable k1, .createTable k1 [⟨41, .int⟩] none false]
+  [.createTable k1 [⟨41, .text 10⟩] (some 3) false none, .dropTable k1, .createTable k1 [⟨41, .int⟩] none false none]
 
 /-- The full statement is false for the code as it is (witness: stale comment after DROP + re-CREATE). -/
 theorem C09_full_false : ¬ C09_Full := by
@@ -80,6 +80,17 @@ theorem C09_drop_removes (w : World) (k : Key) (h : (step w (.dropTable k)).1 = 
     exactly as they are, wherever they are interleaved. -/
 theorem C09_nop_unchanged (w : World) : step w .nop = (true, w) := rfl
 
+/-- **Primary keys** (SHOW PRIMARY KEYS) are read from the live catalog alone — no side table is involved, so nothing a
+    COMMENT, a no-op'd statement or a stale row does can change them — and they follow CREATE, OR REPLACE and DROP. -/
+theorem C09_keys_from_catalog (tabs : List Tab) (t1 t2 : List (Key × Nat)) (c1 c2 : List (Key × Name × Nat)) (d s : Name) :
+    showKeys ⟨tabs, t1, c1⟩ d s = showKeys ⟨tabs, t2, c2⟩ d s := rfl
+
+theorem C09_keys_follow_ddl :
+    showKeys (run World.init [.createTable k1 [⟨41, .int⟩, ⟨42, .text 5⟩] none false (some 41), .setComment k1 3, .nop]) 11 21 = [(31, 41)] ∧
+    showKeys (run World.init [.createTable k1 [⟨41, .int⟩] none false (some 41), .createTable k1 [⟨42, .num 5 0⟩] none true (some 42)]) 11 21 = [(31, 42)] ∧
+    showKeys (run World.init [.createTable k1 [⟨41, .int⟩] none false (some 41), .dropTable k1]) 11 21 = [] ∧
+    (step World.init (.createTable k1 [⟨41, .int⟩] none false (some 49))).1 = false := by decide
+
 /-- **A failed statement changes nothing** (no envelope). -/
 theorem C09_failed_unchanged (w : World) (op : Op) (h : (step w op).1 = false) : (step w op).2 = w := by
   cases op <;> simp only [step] at h ⊢ <;> (repeat' split) <;> simp_all
@@ -95,11 +106,11 @@ theorem C09_octet_length (n : Nat) :
 /-! ## Findings: every region of `region` is a real deviation -/
 
 theorem finding_stale_comment :
-    region (run World.init (staleHistory.take 2)) (.createTable k1 [⟨41, .int⟩] none false) = some .staleComment ∧
+    region (run World.init (staleHistory.take 2)) (.createTable k1 [⟨41, .int⟩] none false none) = some .staleComment ∧
     infoTablesI (run World.init staleHistory) 11 21 = [(31, false, some 3)] ∧
     infoTablesS (run World.init staleHistory) 11 21 = [(31, false, none)] := by decide
 
-def base : World := run World.init [.createTable k1 [⟨41, .text 10⟩, ⟨42, .int⟩] (some 4) false]
+def base : World := run World.init [.createTable k1 [⟨41, .text 10⟩, ⟨42, .int⟩] (some 4) false none]
 
 theorem finding_length_lost_on_rename_column :
     (base.agree = true) ∧ region base (.renameCol k1 41 43) = some .lengthLostOnRenameColumn ∧
@@ -128,19 +139,19 @@ theorem finding_length_lost_on_view :
 
 theorem finding_comment_on_missing_table :
     region World.init (.setComment k1 6) = some .commentOnMissingTable ∧
-    infoTablesI (run World.init [.setComment k1 6, .createTable k1 [⟨41, .int⟩] none false]) 11 21 = [(31, false, some 6)] ∧
-    infoTablesS (run World.init [.setComment k1 6, .createTable k1 [⟨41, .int⟩] none false]) 11 21 = [(31, false, none)] := by decide
+    infoTablesI (run World.init [.setComment k1 6, .createTable k1 [⟨41, .int⟩] none false none]) 11 21 = [(31, false, some 6)] ∧
+    infoTablesS (run World.init [.setComment k1 6, .createTable k1 [⟨41, .int⟩] none false none]) 11 21 = [(31, false, none)] := by decide
 
 /-! ## Non-vacuity -/
 
 /-- a clean history with re-creation, OR REPLACE with a new comment, column churn, CTAS/CLONE/VIEW of non-text columns,
     rename of a non-text column and of a table without text columns or comment, and drops -/
 def demo : List Op :=
-  [.createTable k1 [⟨41, .text 10⟩, ⟨42, .int⟩, ⟨43, .num 10 2⟩] (some 1) false,
+  [.createTable k1 [⟨41, .text 10⟩, ⟨42, .int⟩, ⟨43, .num 10 2⟩] (some 1) false none,
    .addCol k1 ⟨44, .text 7⟩, .dropCol k1 41, .addCol k1 ⟨41, .text 3⟩, .renameCol k1 42 45, .setComment k1 2,
-   .createTable k2 [⟨41, .date⟩, ⟨42, .bool⟩] none false, .renameTable k2 33, .ctas k2 k1 [45, 43] false,
+   .createTable k2 [⟨41, .date⟩, ⟨42, .bool⟩] none false none, .renameTable k2 33, .ctas k2 k1 [45, 43] false,
    .createView (11, 21, 34) k1 [43] false, .clone (11, 22, 31) (11, 21, 33) false,
-   .createTable k1 [⟨41, .text 5⟩] (some 9) true, .dropTable k2, .createTable k2 [⟨46, .text defaultLen⟩] none false,
+   .createTable k1 [⟨41, .text 5⟩] (some 9) true none, .dropTable k2, .createTable k2 [⟨46, .text defaultLen⟩] none false none,
    .dropView (11, 21, 34)]
 
 example : clean World.init demo = true := by decide
